@@ -9,6 +9,7 @@ import (
 	"strings"
 
 	"pigeonverif/internal/absint"
+	"pigeonverif/internal/variants"
 )
 
 // leaderFinalAttempt checks that parseRuleRecursiveLeader returns in the parser state recorded with the result it returns.
@@ -108,50 +109,7 @@ func C08(c *Ctx) {
 		errListMethodsKeepErrors(c, v, "C08-a2")
 		// ---- b
 		if !v.Params.Optimize {
-			fd := v.Func("parser", "parseExprWrap")
-			// at the lookup and at the store the conditions in force include "the rule being evaluated is not left
-			// recursive" (the flag of the rule on top of the rule stack, read directly or through a local defined once)
-			defs := map[string]string{}
-			cnt := map[string]int{}
-			ast.Inspect(fd.Body, func(nd ast.Node) bool {
-				if as, ok := nd.(*ast.AssignStmt); ok && len(as.Lhs) == len(as.Rhs) {
-					for k, l := range as.Lhs {
-						if id, ok := l.(*ast.Ident); ok {
-							cnt[id.Name]++
-							defs[id.Name] = nospace(as.Rhs[k])
-						}
-					}
-				}
-				return true
-			})
-			lrFlag := "p.rstack[len(p.rstack)-1].leftRecursive"
-			var gs []string
-			nOK := 0
-			for _, ce := range callsIn(fd.Body) {
-				if s := callSel(ce); s == "getMemoized" || s == "setMemoized" {
-					has := false
-					var conj []string
-					for _, f := range factsAt(fd.Body, ce.Pos()) {
-						conj = append(conj, splitTop(f, "&&")...)
-					}
-					for _, cj := range conj {
-						x := strings.TrimPrefix(cj, "!")
-						if cnt[x] == 1 {
-							x = defs[x]
-						}
-						if strings.HasPrefix(cj, "!") && x == lrFlag {
-							has = true
-						}
-					}
-					if has {
-						nOK++
-					}
-					gs = append(gs, strings.Join(conj, "&&"))
-				}
-			}
-			ok := len(gs) == 2 && nOK == 2
-			def := lrFlag
-			r.Check(ok, "C08-b", "T.parseExprWrap:memo-off-in-LR-rules", vn, v.Where(fd.Pos()), "both guards p.memoize && !isLeftRecursion", fmt.Sprintf("isLeftRecursion := %s; guards %v", def, gs))
+			memoOffInLeftRecursiveRules(c, v, "C08-b")
 		}
 		// ---- c
 		if res := a.Res["parseRuleWrap"]; res != nil {
@@ -515,4 +473,57 @@ func c08StaticLeader(c *Ctx) {
 	}
 	r.Check(byName == "", "C08-h", "G.builder.findLeader:leader-among-several-candidates", "", g.Where(fd.Pos()), "no choice among several candidates by name",
 		"the leader of a component is the candidate with the smallest name ("+byName+"), whichever rule the grammar enters the component through: `S <- B !.; B <- A 'x' / 'y'; A <- B / 'z'` enters through B, A is made the leader, and `yx` - which B <- B 'x' / 'z' 'x' / 'y' matches - is rejected")
+}
+
+// memoOffInLeftRecursiveRules (C08-b / C06-k): at the memo lookup and at the memo store of parseExprWrap the
+// conditions in force include "the rule being evaluated is not left recursive" - the leftRecursive flag of the rule on
+// top of the rule stack (every member of a recursive group, not only its leader: the body of a non-leader member is
+// re-entered at the same offset on every growth step of the leader and must be evaluated against the current seed).
+func memoOffInLeftRecursiveRules(c *Ctx, v *variants.Variant, rule string) {
+	r := c.R
+	vn := v.Name
+	fd := v.Func("parser", "parseExprWrap")
+	// at the lookup and at the store the conditions in force include "the rule being evaluated is not left
+	// recursive" (the flag of the rule on top of the rule stack, read directly or through a local defined once)
+	defs := map[string]string{}
+	cnt := map[string]int{}
+	ast.Inspect(fd.Body, func(nd ast.Node) bool {
+		if as, ok := nd.(*ast.AssignStmt); ok && len(as.Lhs) == len(as.Rhs) {
+			for k, l := range as.Lhs {
+				if id, ok := l.(*ast.Ident); ok {
+					cnt[id.Name]++
+					defs[id.Name] = nospace(as.Rhs[k])
+				}
+			}
+		}
+		return true
+	})
+	lrFlag := "p.rstack[len(p.rstack)-1].leftRecursive"
+	var gs []string
+	nOK := 0
+	for _, ce := range callsIn(fd.Body) {
+		if s := callSel(ce); s == "getMemoized" || s == "setMemoized" {
+			has := false
+			var conj []string
+			for _, f := range factsAt(fd.Body, ce.Pos()) {
+				conj = append(conj, splitTop(f, "&&")...)
+			}
+			for _, cj := range conj {
+				x := strings.TrimPrefix(cj, "!")
+				if cnt[x] == 1 {
+					x = defs[x]
+				}
+				if strings.HasPrefix(cj, "!") && x == lrFlag {
+					has = true
+				}
+			}
+			if has {
+				nOK++
+			}
+			gs = append(gs, strings.Join(conj, "&&"))
+		}
+	}
+	ok := len(gs) == 2 && nOK == 2
+	def := lrFlag
+	r.Check(ok, rule, "T.parseExprWrap:memo-off-in-LR-rules", vn, v.Where(fd.Pos()), "both guards p.memoize && !isLeftRecursion", fmt.Sprintf("isLeftRecursion := %s; guards %v", def, gs))
 }
